@@ -20,8 +20,10 @@ META = {
                   "evaluated puts the name in its reader and module, a name once known to a reader stays known through "
                   "all later actions, a later use reads without error, a use of an unknown name is a LexException and "
                   "ends the stream, a reader macro returning None yields no form (top level) / no element (in a form), "
-                  "_current_reader is restored after every action, and for every interleaving the other streams' "
-                  "actions leave a stream's reader table, module table and state untouched (distinct readers/modules). "
+                  "_current_reader is restored after every action, for every interleaving the other streams' "
+                  "actions leave a stream's reader table, module table and state untouched (distinct readers/modules), "
+                  "and the events a stream observes are exactly those of running its own actions alone "
+                  "(C37_interleaving_projection; the stream may require only from modules no stream writes to). "
                   "That form i+1 is READ only after form i was evaluated in hy's own pipeline is a shape fact checked by "
                   "the translator and exercised by the oracle, not a Coq theorem.",
     "level_note": "Trusted: Coq kernel; translator/macro_readers.py; the hand-written model of defreader / require "
